@@ -108,6 +108,12 @@ func (p *plainRequest) accept(b []byte) error {
 	return nil
 }
 
+// isInterimResponse returns true when b is the beginning of an interim response (status 1xx). The http
+// server writes "100 Continue" when a handler reads the body of a request which expects it.
+func isInterimResponse(b []byte) bool {
+	return bytes.HasPrefix(b, []byte("HTTP/1.1 1")) || bytes.HasPrefix(b, []byte("HTTP/1.0 1"))
+}
+
 // responseWritten is called before a response is written; the next request may follow.
 func (p *plainRequest) responseWritten() {
 	p.mutex.Lock()
@@ -229,7 +235,10 @@ func (con *Connection) Write(b []byte) (n int, err error) {
 	if encrypter := sess.Encrypter(); encrypter != nil {
 		n, err = con.encryptedWrite(encrypter, b)
 	} else {
-		con.plain.responseWritten()
+		// An interim response (100 Continue) is not the response of the request
+		if !isInterimResponse(b) {
+			con.plain.responseWritten()
+		}
 		n, err = con.connection.Write(b)
 	}
 
